@@ -851,7 +851,7 @@ fn eval_in_subprocess<E: Engine>(args: &Args, tag: &str, case: &E::Case, hang_se
         .arg("--seed").arg(args.seed.to_string())
         .arg(&path)
         .stdout(Stdio::piped())
-        .stderr(Stdio::inherit())
+        .stderr(if std::env::var("VERIF_VERBOSE").is_ok() { Stdio::inherit() } else { Stdio::null() })
         .stdin(Stdio::null())
         .spawn()
         .unwrap_or_else(|e| harness_error(&format!("spawn eval: {e}")));
